@@ -84,6 +84,20 @@ Theorem C04_unit_filter_either : forall is_space, ascii_ok is_space ->
 Proof. exact unit_filter_either. Qed.
 Print Assumptions C04_unit_filter_either.
 
+(** a value list / regexp alternative judges each measurement independently:
+    [.unit:(a OR b)] keeps a measurement iff [.unit:a] or [.unit:b] keeps it,
+    and a result line keeps exactly its matching measurements (it survives iff one does) *)
+Theorem C04_unit_filter_list : forall (m1 m2 : bytes -> bool) v,
+  unit_match (fun u => m1 u || m2 u) v = unit_match m1 v || unit_match m2 v.
+Proof. exact unit_match_or. Qed.
+Print Assumptions C04_unit_filter_list.
+
+Theorem C04_unit_filter_per_measurement : forall (m : bytes -> bool) vals,
+  fst (unit_filter_apply m vals) = filter (unit_match m) vals /\
+  snd (unit_filter_apply m vals) = existsb (unit_match m) vals.
+Proof. exact unit_filter_apply_pointwise. Qed.
+Print Assumptions C04_unit_filter_per_measurement.
+
 (** record of the repaired defect: deciding on [tidyVal == val] kept "ns/op" for 0 *)
 Theorem C04_old_decision_refuted :
   exists v u, v_unit (read_value_old go_is_space v u) <> fst (tidy_unit go_is_space u).
